@@ -1020,6 +1020,13 @@ def bi_allocated(st, args, kw):
     return E.mk_bool(z3.And(v.z > 0, v.z < st.alloc))
 
 
+def bi_preexisting(st, args, kw):
+    """preexisting(x): x is None or an object that already existed when the function under verification was
+    entered (ref < allocation counter at entry): its fields are outside every 'fresh' frame."""
+    v = args[0]
+    return E.mk_bool(z3.And(v.z >= 0, v.z < st.fn_alloc0))
+
+
 def bi_ncalls(st, args, kw):
     """ncalls('Callee.key'): number of calls to that contract made so far on this path (ghost call log)"""
     key = z3.simplify(args[0].z).as_string()
@@ -1196,7 +1203,7 @@ def bi_dict(st, args, kw):
 
 
 _BUILTINS = {
-    'mkseq': bi_mkseq, 'subset': bi_subset, 'str_suffix': bi_str_suffix, 'py_decode': bi_py_decode, 'alloc_ordered': bi_alloc_ordered, 'py_join_seq': bi_py_join_seq, 'subseq': bi_subseq, 'py_int_ok': bi_py_int_ok, 'py_int_val': bi_py_int_val, 'substr': bi_substr, 'str_index': bi_str_index, 'py_lower': bi_py_lower, 'substr_after_last': bi_substr_after_last, 'pure_IO_encrypted_of': bi_pure_IO_encrypted_of, 'str_prefix': bi_str_prefix, 'nraised': bi_nraised, 'allocated': bi_allocated, 'ncalls': bi_ncalls, 'call_arg': bi_call_arg,
+    'mkseq': bi_mkseq, 'subset': bi_subset, 'str_suffix': bi_str_suffix, 'py_decode': bi_py_decode, 'alloc_ordered': bi_alloc_ordered, 'py_join_seq': bi_py_join_seq, 'subseq': bi_subseq, 'py_int_ok': bi_py_int_ok, 'py_int_val': bi_py_int_val, 'substr': bi_substr, 'str_index': bi_str_index, 'py_lower': bi_py_lower, 'substr_after_last': bi_substr_after_last, 'pure_IO_encrypted_of': bi_pure_IO_encrypted_of, 'str_prefix': bi_str_prefix, 'nraised': bi_nraised, 'allocated': bi_allocated, 'preexisting': bi_preexisting, 'ncalls': bi_ncalls, 'call_arg': bi_call_arg,
     'call_result': bi_call_result, 'trig': bi_trig, 'same': bi_same, 'is_list': bi_is_list, 'store': bi_store, 'dict_has': bi_dict_has,
     'dict_get': bi_dict_get, 'dict_keys': bi_dict_keys, 'dict': bi_dict, 'dict_index': bi_dict_index,
     'len': bi_len, 'set': bi_set, 'list': bi_list, 'tuple': bi_tuple, 'min': bi_min, 'max': bi_max,
